@@ -23,7 +23,7 @@ def run(ctx):
     keys = [1, 2, 3, N - 2, N - 1] + [rng.randrange(1, N) for _ in range(6 if not thorough else 30)]
     digs = [0, 1, N - 1, N, N + 1, (1 << 256) - 1]
     cases = [(k, d.to_bytes(32, "big")) for k in keys for d in digs]
-    for _ in range(60 if not thorough else 900):
+    for _ in range(300 if not thorough else 3000):
         cases.append((rng.choice(keys + [rng.randrange(1, N)]), rbytes(rng, 32)))
     impl = ctx.harness([("sign", k.to_bytes(32, "big"), h) for k, h in cases])
     mod = ctx.model(["c05_sign %s %s" % (ni(k), pb(h)) for k, h in cases], label="C05", timeout=1500)
